@@ -3511,7 +3511,7 @@ func (a *Association) createForwardTSN() *chunkForwardTSN {
 		// Only ordered messages are reported per stream (RFC 3758 sec 3.2): an
 		// unordered chunk does not consume an SSN, the value it carries is the
 		// SSN of the next ordered message on that stream.
-		if c.unordered {
+		if c.unordered || a.isOfReplacedStream(c) {
 			continue
 		}
 
@@ -3545,6 +3545,20 @@ func (a *Association) createForwardTSN() *chunkForwardTSN {
 	return fwdtsn
 }
 
+// isOfReplacedStream reports whether the chunk was sent by an earlier incarnation
+// of its stream identifier: the stream has been reset and opened again since. The
+// sequence numbers of such a chunk mean nothing to the peer's new incarnation, only
+// its TSN still has to be skipped.
+// The caller should hold the lock.
+func (a *Association) isOfReplacedStream(c *chunkPayloadData) bool {
+	if c.stream == nil {
+		return false
+	}
+	cur, ok := a.streams[c.streamIdentifier]
+
+	return ok && cur != c.stream
+}
+
 // createIForwardTSN generates I-FORWARD-TSN chunk.
 // The caller should hold the lock.
 func (a *Association) createIForwardTSN() *chunkIForwardTSN {
@@ -3554,6 +3568,9 @@ func (a *Association) createIForwardTSN() *chunkIForwardTSN {
 		c, ok := a.inflightQueue.get(i)
 		if !ok {
 			break
+		}
+		if a.isOfReplacedStream(c) {
+			continue
 		}
 		if c.unordered {
 			mid, ok := unordered[c.streamIdentifier]
